@@ -46,6 +46,8 @@ class Run(OpsMixin, CallsMixin):
         self.bound = {}           # spec-mode bound variables
         self.iter_elem = {}       # address sexpr -> declared element type of an iterator
         self.dict_key_type = {}   # address sexpr -> declared key type of a dict
+        self.list_elem_type = {}  # address sexpr -> declared element type of a list
+        self.tagsets = {}         # value sexpr -> tags allowed by its declared type
 
     # ------------------------------------------------------------------ basics
     def fresh(self, name, sort=None):
@@ -69,9 +71,17 @@ class Run(OpsMixin, CallsMixin):
         cond = z3.simplify(cond) if not z3.is_quantifier(cond) else cond
         if z3.is_true(cond):
             return
+        if z3.is_and(cond):
+            for c in cond.children():
+                self.assume(c)
+            return
         self.pc.append(cond)
-        self.solver.add(cond)
-        self.pc_hash.update(cond.sexpr().encode())
+        sx = cond.sexpr()
+        # path-feasibility pruning uses the quantifier-free part of the path condition only (fewer assumptions can
+        # only make more paths look feasible, never fewer); obligations are always discharged under the full pc
+        if 'forall' not in sx and 'exists' not in sx and 'lambda' not in sx:
+            self.solver.add(cond)
+        self.pc_hash.update(sx.encode())
         self._note_tags(cond)
 
     def _note_tags(self, cond):
@@ -156,6 +166,40 @@ class Run(OpsMixin, CallsMixin):
         if ann:
             self.assume(self.type_constraint(v, ann))
         return v
+
+    def declared_tags(self, ty):
+        ty = ty.strip()
+        out = set()
+        for t in ty.split('|'):
+            t = t.strip()
+            if t in ('int', 'nat'):
+                out.add('VInt')
+            elif t == 'str':
+                out.add('VStr')
+            elif t == 'bool':
+                out.add('VBool')
+            elif t in ('None', 'none'):
+                out.add('VNone')
+            elif t == 'num':
+                out |= {'VInt', 'VNum'}
+            elif t == 'float':
+                out |= {'VNum', 'VInf'}
+            elif t.startswith('tuple'):
+                out.add('VTup')
+            elif t in ('any', 'Any', 'object'):
+                return None
+            else:
+                out.add('VRef')
+        return [t for t in TAGS if t in out]
+
+    def assume_type(self, v, ty):
+        """Assume a declared (heap typing) type for a value read from the heap and remember its possible tags."""
+        self.assume(self.type_constraint(v, ty))
+        tags = self.declared_tags(ty)
+        if tags:
+            self.tagsets[v.sexpr()] = tags
+            if len(tags) == 1:
+                self.tagcache[v.sexpr()] = tags[0]
 
     def type_constraint(self, v, ty):
         ty = ty.strip().strip("'\"")
